@@ -1,14 +1,17 @@
 #!/bin/bash
-# Regenerate Generated/PyFuncs.v from a source tree and rebuild the two property files that depend on it.
-# usage: tools/pygen_try.sh [repo-dir] [coq-dir]     (defaults: /repo, /work/pygen/coq)
-R="${1:-/repo}"; C="${2:-/work/pygen/coq}"
-cd /verif/harness && /venv/bin/python -m vharness.pytrans "$R" "$C" >/dev/null 2>&1 || { echo "TRANSLATOR CRASHED"; exit 2; }
+# Regenerate Generated/PyFuncs.v from a source tree and rebuild the property files that depend on it.
+# usage: tools/pygen_try.sh [repo-dir] [coq-dir] [props...]   (defaults: /repo, /work/pygen/coq, all four)
+# PYGEN_HARNESS=<dir> uses the translator of another harness copy (default /verif/harness)
+R="${1:-/repo}"; C="${2:-/work/pygen/coq}"; shift; shift
+P="${@:-C10gen TieGen C15gen C18gen}"
+cd ${PYGEN_HARNESS:-/verif/harness} && /venv/bin/python -m vharness.pytrans "$R" "$C" >/dev/null 2>&1 || { echo "TRANSLATOR CRASHED"; exit 2; }
 cd "$C" && make Makefile.coq >/dev/null 2>&1
-rm -f theories/Props/C10gen.vo theories/Props/TieGen.vo
-OUT=$(timeout 900 make -f Makefile.coq -k -j4 theories/Props/C10gen.vo theories/Props/TieGen.vo 2>&1 | grep -v conda)
+T=""
+for f in $P; do rm -f theories/Props/$f.vo; T="$T theories/Props/$f.vo"; done
+OUT=$(timeout 1200 make -f Makefile.coq -k -j4 $T 2>&1 | grep -v conda)
 S=0
-for f in C10gen TieGen; do
+for f in $P; do
   if [ -f theories/Props/$f.vo ]; then echo "$f: checks"; else echo "$f: FAILS"; S=1; fi
 done
-if [ $S = 1 ]; then echo "$OUT" | grep -A6 '^File ' | head -24; grep -n 'Untranslated "' theories/Generated/PyFuncs.v | cut -c1-220 | head; fi
+if [ $S = 1 ]; then echo "$OUT" | grep -A6 '^File ' | head -24; grep -n 'Untranslated "' theories/Generated/PyFuncs.v | grep -v "histogram\|median_ballot\|std_dev" | cut -c1-220 | head; fi
 exit $S
